@@ -2,7 +2,6 @@ package hotline
 
 import (
 	"encoding/binary"
-	"errors"
 	"fmt"
 	"io"
 	"io/fs"
@@ -61,12 +60,11 @@ func GetFileNameList(path string, ignoreList []string) (fields []Field, err erro
 				return fields, fmt.Errorf("error following symlink: %s: %w", resolvedPath, err)
 			}
 
+			// An alias whose target cannot be resolved (it is gone, or the alias points at itself) is left out
+			// of the list; it must not make the whole folder unlistable.
 			rFile, err := os.Stat(resolvedPath)
-			if errors.Is(err, os.ErrNotExist) {
-				continue
-			}
 			if err != nil {
-				return fields, err
+				continue
 			}
 
 			if rFile.IsDir() {
